@@ -68,3 +68,67 @@ def register(I):
         s = deref_all(a[1])
         m = deref_all(a[0]).v.search(s)
         return some(Opaque("match", (m.start(), m.end(), s))) if m else none()
+
+
+def glob_to_regex(pat):
+    """globset default syntax (no literal separator): * ? [..] {a,b}  -> python regex."""
+    out = []
+    i = 0
+    n = len(pat)
+    depth = 0
+    while i < n:
+        c = pat[i]
+        if c == "*":
+            while i + 1 < n and pat[i + 1] == "*":
+                i += 1
+            out.append(".*")
+        elif c == "?":
+            out.append(".")
+        elif c == "[":
+            j = pat.find("]", i + 2 if pat[i + 1 : i + 2] in ("!", "^") else i + 1)
+            if j < 0:
+                out.append(_re.escape(c))
+            else:
+                body = pat[i + 1 : j]
+                if body.startswith("!"):
+                    body = "^" + body[1:]
+                out.append("[" + body.replace("\\", "\\\\") + "]")
+                i = j
+        elif c == "{":
+            depth += 1
+            out.append("(?:")
+        elif c == "}" and depth > 0:
+            depth -= 1
+            out.append(")")
+        elif c == "," and depth > 0:
+            out.append("|")
+        elif c == "\\" and i + 1 < n:
+            i += 1
+            out.append(_re.escape(pat[i]))
+        else:
+            out.append(_re.escape(c))
+        i += 1
+    return "(?s)^" + "".join(out) + "$"
+
+
+def register_glob(I):
+    intr = I.intrinsic
+
+    @intr("globset::Glob::new")
+    def _glob_new(I, a, cc):
+        return ok(Opaque("glob", deref_all(a[0])))
+
+    @intr("globset::Glob::compile_matcher")
+    def _compile(I, a, cc):
+        return Opaque("globmatcher", deref_all(a[0]).v)
+
+    @intr("globset::GlobMatcher::is_match")
+    def _is_match(I, a, cc):
+        m = deref_all(a[0])
+        s = deref_all(a[1])
+        hook = getattr(I, "glob_oracle", None)
+        if hook is not None:
+            return hook(m.v, s)
+        if isinstance(m.v, str) and type(s) is str:
+            return _re.match(glob_to_regex(m.v), s) is not None
+        raise Unsupported("glob match on symbolic operands")
